@@ -1,4 +1,5 @@
 import PwVerif.Proofs.Conn
+import PwVerif.Proofs.ConnOps
 /-!
 # C12 — Connections stay mutual, well-typed and duplicate-free under any editing history
 
@@ -7,7 +8,12 @@ only join an input with an output of the same kind, never appear twice, and a re
 connection or a disconnection of unconnected channels changes nothing. Removing a node from
 its parent or disconnecting it leaves no other channel still pointing at it."
 
-Only property theorems live here; the lemmas are in `Proofs/Conn.lean`.
+Only property theorems live here; the lemmas are in `Proofs/Conn.lean` and `Proofs/ConnOps.lean`.
+
+* first block (round 1): the alphabet of `Model/Conn.lean` (copies as the code was pinned);
+* second block: the alphabet of the tree as it is now (`ConnOps.Op`), owners at every level
+  (any list of channels: a panel, a node, a macro, the by-reference panels of a workflow), reports,
+  refusals per side with the tree's order of half-removals, refused copies.
 -/
 namespace PwVerif.C12
 open PwVerif PwVerif.Conn
@@ -63,6 +69,183 @@ example : exG.conns 0 = [1] ∧ exG.conns 1 = [0, 5] ∧ exG.conns 3 = [4] ∧ e
 example : Inv exG := C12_history _ _ _ _
 example : (connect1 exG 0 2).2 = .connErr ∧ (connect1 exG 0 3).2 = .typeErr := by decide
 
+/-! # second block: the tree as it is now -/
+open PwVerif.ConnOps hiding run step Op step_inv run_inv
+
+/-- every entry point of the current tree (copies that only unwind what they formed) preserves the
+invariant ... -/
+theorem C12_step_current (g : G) (op : ConnOps.Op) (h : Inv g) : Inv (ConnOps.step g op).1 :=
+  ConnOps.step_inv g op h
+
+/-- ... along every history -/
+theorem C12_history_current (kind owner valid) (ops : List ConnOps.Op) :
+    Inv (ConnOps.run (empty kind owner valid) ops) :=
+  ConnOps.run_inv _ ops (C12_init kind owner valid)
+
+/-! ## refusals per side, in the tree's order of half-removals -/
+
+/-- where no channel refuses (the tree as it is), the half-by-half transcription IS the atomic one
+of `Model/Conn.lean`, and nothing raises -/
+theorem C12_unguarded_is_atomic (g : G) (a : Nat) (bs cs : List Nat) :
+    (disconnectG allow g a bs).1 = disconnect g a bs ∧ (disconnectG allow g a bs).2.2 = false ∧
+    (disconnectChansG allow g cs []).1 = disconnectChans g cs ∧ (disconnectChansG allow g cs []).2.2 = false ∧
+    connectG allow g a bs = ((connect g a bs).1, .ofRes (connect g a bs).2) :=
+  ⟨(disconnectG_allow g a bs).1, (disconnectG_allow g a bs).2, (disconnectChansG_allow g cs []).1,
+   (disconnectChansG_allow g cs []).2, connectG_allow g a bs⟩
+
+/-- FOR EVERY permission predicate: `a.disconnect(b)` on a connected pair keeps the invariant
+exactly when `b` cannot refuse after `a`'s half has been removed -/
+theorem C12_disconnect_half_iff (me : May) (g : G) (a b : Nat) (h : Inv g) (ha : me a = true)
+    (hb : b ∈ g.conns a) : Inv (disconnectG me g a [b]).1 ↔ me b = true :=
+  disconnectG_single_inv_iff me g a b h ha hb
+
+/-- ... and the torn state is: `a`'s half gone, `b`'s half still there, no report -/
+theorem C12_disconnect_torn_state (me : May) (g : G) (a b : Nat) (ha : me a = true) (hb : b ∈ g.conns a)
+    (hmb : me b = false) : disconnectG me g a [b] = (eraseHalf g a b, [], true) :=
+  disconnectG_single_torn me g a b ha hb hmb
+
+/-- a refusal at the entry (the initiating side's own guard) changes nothing, for both directions -/
+theorem C12_entry_refused_noop (me : May) (g : G) (a : Nat) (bs : List Nat) (h : me a = false) :
+    disconnectG me g a bs = (g, [], true) ∧ connectG me g a bs = (g, .locked) :=
+  ⟨disconnectG_locked_noop me g a bs h, connectG_locked_noop me g a bs h⟩
+
+/-- `connect` edits the partner's list directly: FOR EVERY permission predicate it keeps the
+invariant, and a refused single connection changes nothing -/
+theorem C12_connect_guarded_atomic (me : May) (g : G) (a b : Nat) (bs : List Nat) (h : Inv g) :
+    Inv (connectG me g a bs).1 ∧ ((connectG me g a [b]).2 ≠ .ok → (connectG me g a [b]).1 = g) :=
+  ⟨connectG_inv me g a bs h, connectG_single_refused_noop me g a b⟩
+
+/-- witness: an input whose owner is "running" refuses; the disconnection initiated from the
+output side tears the pair apart -/
+def tornKind : Nat → Kind | 0 => .dataOut | _ => .dataIn
+def tornG : G := run (empty tornKind (fun c => c) (fun _ _ => true)) [.connect 0 [1], .connect 0 [2]]
+def tornMe : May := fun c => c != 1
+
+theorem C12_disconnect_torn_witness :
+    Inv tornG ∧ (disconnectG tornMe tornG 0 [1]).2.2 = true ∧
+    1 ∉ (disconnectG tornMe tornG 0 [1]).1.conns 0 ∧ 0 ∈ (disconnectG tornMe tornG 0 [1]).1.conns 1 ∧
+    ¬ Inv (disconnectG tornMe tornG 0 [1]).1 := by
+  have hi : Inv tornG := C12_history _ _ _ _
+  refine ⟨hi, by decide, by decide, by decide, ?_⟩
+  have hb : (1 : Nat) ∈ tornG.conns 0 := by decide
+  exact fun h => absurd ((C12_disconnect_half_iff tornMe tornG 0 1 hi (by decide) hb).mp h) (by decide)
+
+/-- a protocol that consults both guards before it touches either half cannot be torn: FOR EVERY
+history in which the permission changes arbitrarily between operations the invariant holds ... -/
+theorem C12_safe_protocol_history (kind owner valid) (hist : List (May × SafeOp)) :
+    Inv (runSafe (empty kind owner valid) hist) :=
+  runSafe_inv _ hist (C12_init kind owner valid)
+
+/-- ... and every refused operation changes nothing -/
+theorem C12_safe_protocol_refused_noop (me : May) (g : G) (op : SafeOp) (hr : (stepSafe me g op).2 ≠ .ok) :
+    (stepSafe me g op).1 = g := stepSafe_refused_noop me g op hr
+
+example : (stepSafe tornMe tornG (.disconnect 0 1)).2 = .locked ∧
+    (stepSafe tornMe tornG (.disconnect 0 1)).1.conns 1 = [0] := by decide
+example : (stepSafe tornMe tornG (.disconnect 0 2)).1.conns 0 = [1] := by decide
+
+/-! ## owners at every level: any list of channels -/
+
+/-- `disconnect()` of an owner whose panels hold the channels `cs` — a panel, the signals, a node, a
+macro, a workflow with the child channels its data panels expose — leaves no channel ANYWHERE pointing
+at any of them, and they hold nothing -/
+theorem C12_owner_disconnect_clean (g : G) (cs : List Nat) (h : Inv g) :
+    ∀ y ∈ cs, (∀ x, y ∉ (disconnectChans g cs).conns x) ∧ (disconnectChans g cs).conns y = [] :=
+  fun y hy => ⟨fun x => (disconnectChans_clean g cs h y hy x).1, (disconnectChans_clean g cs h y hy y).2⟩
+
+/-- ... and it does exactly that: every other channel keeps its list, in order, minus the owner's -/
+theorem C12_owner_disconnect_exact (g : G) (cs : List Nat) (h : Inv g) (x : Nat) :
+    (disconnectChans g cs).conns x = if x ∈ cs then [] else (g.conns x).filter (fun y => !cs.contains y) :=
+  disconnectChans_conns g cs h x
+
+/-- `connected` of the owner is false right afterwards -/
+theorem C12_owner_not_connected_after (g : G) (cs : List Nat) (h : Inv g) :
+    anyConnected (disconnectChans g cs) cs = false := anyConnected_after g cs h
+
+/-- the report: the graph is the one above, and the returned pairs are, channel by channel in panel
+order, the partners each still had; every reported pair was a connection of the owner, and every
+connection of the owner is reported (in one orientation) -/
+theorem C12_owner_disconnect_report (g : G) (cs : List Nat) (h : Inv g) :
+    (disconnectChansR g cs).1 = disconnectChans g cs ∧
+    (disconnectChansR g cs).2 = reportSpec g cs [] ∧
+    (∀ p ∈ (disconnectChansR g cs).2, p.1 ∈ cs ∧ p.2 ∈ g.conns p.1) ∧
+    (∀ c ∈ cs, ∀ y ∈ g.conns c, (c, y) ∈ (disconnectChansR g cs).2 ∨ (y, c) ∈ (disconnectChansR g cs).2) := by
+  refine ⟨disconnectChansR_fst g cs, disconnectChansR_report g h cs, ?_, ?_⟩
+  · intro p hp
+    rw [disconnectChansR_report g h cs] at hp
+    have := reportSpec_sound g cs [] p hp
+    exact ⟨this.1, this.2.1⟩
+  · intro c hc y hy
+    rw [disconnectChansR_report g h cs]
+    exact reportSpec_complete g h cs [] c y hc hy (by simp) (by simp)
+
+/-- channel level: `disconnect_all` reports exactly its partners, in list order -/
+theorem C12_disconnect_all_report (g : G) (a : Nat) (h : Inv g) :
+    (disconnectAllG allow g a).2.1 = (g.conns a).map fun b => (a, b) :=
+  disconnectAllG_allow_report g a h
+
+/-! Non-vacuity: a "workflow" whose panels expose the channels 0 (an input of a child) and 1 (an
+output of a child), both wired to channels 2, 3 of another owner, and 4–5 an internal connection. -/
+def ownKind : Nat → Kind | 0 => .dataIn | 1 => .dataOut | 2 => .dataOut | 3 => .dataIn | 4 => .dataOut | _ => .dataIn
+def ownG : G := run (empty ownKind (fun c => c / 2) (fun _ _ => true))
+  [.connect 0 [2], .connect 3 [1], .connect 5 [4], .connect 0 [4]]
+example : ownG.conns 0 = [4, 2] ∧ ownG.conns 4 = [0, 5] := by decide
+example : (disconnectChansR ownG [0, 1]).2 = [(0, 4), (0, 2), (1, 3)] := by decide
+example : (disconnectChans ownG [0, 1]).conns 4 = [5] ∧ (disconnectChans ownG [0, 1]).conns 2 = [] := by decide
+example : anyConnected ownG [0, 1] = true ∧ panelConnections ownG [0, 1] = [4, 2, 3] := by decide
+
+/-! ## refused copies -/
+
+/-- `Channel.copy_connections` as the tree has it now: refused ⇒ every list exactly as before,
+whatever was connected before -/
+theorem C12_copy_connections_refused_noop (g : G) (a b : Nat) (h : Inv g) (hr : (copyConnsN g a b).2 ≠ .ok) :
+    (copyConnsN g a b).1 = g := copyConnsN_refused g a b h hr
+
+/-- `HasIO._copy_connections(fail_hard=True)` (`copy_io`, `replace_child`) as the tree has it now: a
+refusal in ANY panel position, with ANY pre-existing connections, restores every list exactly -/
+theorem C12_copy_io_refused_noop (g : G) (ps : List (Option Nat × Nat)) (h : Inv g)
+    (hr : (copyIoN g true ps).2 ≠ .ok) : (copyIoN g true ps).1 = g := copyIoN_refused g ps h hr
+
+/-- a soft copy never refuses -/
+theorem C12_copy_io_soft_never_refuses (g : G) (ps : List (Option Nat × Nat)) : (copyIoN g false ps).2 = .ok :=
+  copyIoN_soft_ok g ps
+
+/-- the full statement for the copies as they were PINNED (`Model/Conn.lean`: every attempted partner
+went into the undo log) -/
+def PinnedCopyRefusedNoopStatement : Prop :=
+  ∀ (g : G) (a b : Nat), Inv g → (copyConns g a b).2 ≠ .ok → (copyConns g a b).1 = g
+
+/-- ... holds under the named hypotheses "no partner to be copied is a partner already" /
+"the receiving channels start unconnected" (what `replace_child` enforces on the replacement) -/
+theorem C12_pinned_copy_refused_partial (g : G) (h : Inv g) :
+    (∀ a b, (∀ c ∈ g.conns b, c ∉ g.conns a) → (copyConns g a b).2 ≠ .ok → (copyConns g a b).1 = g) ∧
+    (∀ ps, (∀ m o, (some m, o) ∈ ps → g.conns m = []) → (copyIo g true ps).2 ≠ .ok → (copyIo g true ps).1 = g) :=
+  ⟨fun a b hf hr => copyConns_refused g a b h hf hr, fun ps hun hr => copyIo_refused g ps h hun hr⟩
+
+/-- ... and is false without them: channel 3 (input) copies from channel 0 (input) whose partners are
+1 (also a partner of 3 already) and 2 (refused by 3's hint): the refused copy disconnects 3–1 -/
+def cpKind : Nat → Kind | 1 => .dataOut | 2 => .dataOut | _ => .dataIn
+def cpG : G := run (empty cpKind (fun c => c) (fun a b => !((a == 3 && b == 2) || (a == 2 && b == 3))))
+  [.connect 0 [2], .connect 0 [1], .connect 3 [1]]
+
+theorem C12_pinned_copy_witness : ¬ PinnedCopyRefusedNoopStatement := by
+  intro hst
+  have hi : Inv cpG := C12_history _ _ _ _
+  have h1 : (copyConns cpG 3 0).2 ≠ .ok := by decide
+  have h2 := hst cpG 3 0 hi h1
+  have h3 : (copyConns cpG 3 0).1.conns 3 = [] := by decide
+  have h4 : cpG.conns 3 = [1] := by decide
+  rw [h2] at h3
+  rw [h3] at h4
+  cases h4
+
+example : (copyConnsN cpG 3 0).2 = .connErr ∧ (copyConnsN cpG 3 0).1.conns 3 = [1] ∧
+    (copyConnsN cpG 3 0).1.conns 1 = [3, 0] := by decide
+/-- multi-panel: the first pair copies, the second has no counterpart: everything is unwound -/
+example : (copyIoN cpG true [(some 4, 0), (none, 3)]).2 = .connErr ∧
+    (copyIoN cpG true [(some 4, 0), (none, 3)]).1.conns 1 = cpG.conns 1 := by decide
+example : (copyIoN cpG false [(some 4, 0), (none, 3)]).1.conns 4 = [2, 1] := by decide
+
 end PwVerif.C12
 
 #print axioms PwVerif.C12.C12_init
@@ -72,3 +255,23 @@ end PwVerif.C12
 #print axioms PwVerif.C12.C12_disconnect_unconnected_noop
 #print axioms PwVerif.C12.C12_node_disconnect_clean
 #print axioms PwVerif.C12.C12_connect_idempotent
+#print axioms PwVerif.C12.C12_step_current
+#print axioms PwVerif.C12.C12_history_current
+#print axioms PwVerif.C12.C12_unguarded_is_atomic
+#print axioms PwVerif.C12.C12_disconnect_half_iff
+#print axioms PwVerif.C12.C12_disconnect_torn_state
+#print axioms PwVerif.C12.C12_entry_refused_noop
+#print axioms PwVerif.C12.C12_connect_guarded_atomic
+#print axioms PwVerif.C12.C12_disconnect_torn_witness
+#print axioms PwVerif.C12.C12_safe_protocol_history
+#print axioms PwVerif.C12.C12_safe_protocol_refused_noop
+#print axioms PwVerif.C12.C12_owner_disconnect_clean
+#print axioms PwVerif.C12.C12_owner_disconnect_exact
+#print axioms PwVerif.C12.C12_owner_not_connected_after
+#print axioms PwVerif.C12.C12_owner_disconnect_report
+#print axioms PwVerif.C12.C12_disconnect_all_report
+#print axioms PwVerif.C12.C12_copy_connections_refused_noop
+#print axioms PwVerif.C12.C12_copy_io_refused_noop
+#print axioms PwVerif.C12.C12_copy_io_soft_never_refuses
+#print axioms PwVerif.C12.C12_pinned_copy_refused_partial
+#print axioms PwVerif.C12.C12_pinned_copy_witness
